@@ -65,6 +65,14 @@ class FileManager:
             return Error(f"Unable to find note in file | {err_ctx}")
         end_idx = start_idx + len(note.body.split("\n"))
         zlines = c.read_text_verbatim(zpage).split("\n")
+        # Whitespace-only continuation lines at the end of the note are not
+        # part of its (stripped) body, but they are lines of the note.
+        while (
+            end_idx < len(zlines)
+            and zlines[end_idx].rstrip("\r") != ""
+            and zlines[end_idx].strip() == ""
+        ):
+            end_idx += 1
         new_zlines = zlines[:start_idx] + zlines[end_idx:]
         new_zcontents = "\n".join(new_zlines)
         zpage.write_text(new_zcontents)
